@@ -1279,6 +1279,10 @@ func (g *vg) genIface(i int, used map[string]bool, forceAdvertise bool) dIface {
 		}
 	case g.chance(l+":names", 1, 3):
 		n := rapid.IntRange(1, 3).Draw(g.t, l+":nnames")
+		if g.chance(l+":manynames", 1, 12) {
+			// a router with many VLAN interfaces sharing one stanza
+			n = rapid.SampledFrom([]int{8, 17, 33, 64, 65, 70}).Draw(g.t, l+":nnamesmany")
+		}
 		ifi.HasNames = true
 		for j := 0; j < n; j++ {
 			ifi.Names = append(ifi.Names, fresh())
